@@ -3,6 +3,7 @@ package c14
 import (
 	"fmt"
 	"math"
+	"regexp"
 	"strconv"
 	"strings"
 
@@ -11,20 +12,144 @@ import (
 
 // ---------------------------------------------------------------- PHP values (harness side)
 
-// pv: K = N T F I S D A O
+// pv: K = N T F I S D A K O
+//
+//	A = data.ArrayValue with positional slots only, K = data.ArrayValue with slot names
+//	(Keys[i] == "" is a positional slot), O = data.ObjectValue (keyed array)
 type pv struct {
 	K     byte
 	I     int64
 	S     string
 	F     float64
 	Items []pv
-	Keys  []string // O only, parallel to Items
+	Keys  []string // K and O, parallel to Items
+}
+
+// refFloatText: the text PHP's serialize writes for a float (serialize_precision = -1):
+// the shortest digits that read back as the same float64 (strconv, trusted), laid out by the
+// harness itself: plain decimal when the decimal point position is within -3..17, d.dddE±x
+// otherwise, NAN / INF / -INF. This is the float *lexeme* the Lean model carries.
+func refFloatText(f float64) string {
+	switch {
+	case math.IsNaN(f):
+		return "NAN"
+	case math.IsInf(f, 1):
+		return "INF"
+	case math.IsInf(f, -1):
+		return "-INF"
+	}
+	neg := math.Signbit(f)
+	digs, exp10 := shortestDigits(math.Abs(f)) // value = 0.<digs> × 10^exp10
+	var sb strings.Builder
+	if neg {
+		sb.WriteByte('-')
+	}
+	switch {
+	case digs == "0":
+		sb.WriteByte('0')
+	case exp10 < -3 || exp10 > 17:
+		sb.WriteString(digs[:1])
+		sb.WriteByte('.')
+		if len(digs) == 1 {
+			sb.WriteByte('0')
+		} else {
+			sb.WriteString(digs[1:])
+		}
+		sb.WriteByte('E')
+		e := exp10 - 1
+		if e < 0 {
+			sb.WriteByte('-')
+			e = -e
+		} else {
+			sb.WriteByte('+')
+		}
+		sb.WriteString(strconv.Itoa(e))
+	case exp10 <= 0:
+		sb.WriteString("0.")
+		sb.WriteString(strings.Repeat("0", -exp10))
+		sb.WriteString(digs)
+	case exp10 >= len(digs):
+		sb.WriteString(digs)
+		sb.WriteString(strings.Repeat("0", exp10-len(digs)))
+	default:
+		sb.WriteString(digs[:exp10])
+		sb.WriteByte('.')
+		sb.WriteString(digs[exp10:])
+	}
+	return sb.String()
+}
+
+// shortestDigits: decimal digits d1d2…dn (no trailing zeros) and exponent e with f = 0.d1d2…dn × 10^e
+func shortestDigits(f float64) (string, int) {
+	if f == 0 {
+		return "0", 1
+	}
+	b := strconv.AppendFloat(nil, f, 'e', -1, 64) // d.ddde±xx
+	t := string(b)
+	i := strings.IndexByte(t, 'e')
+	e, _ := strconv.Atoi(t[i+1:])
+	d := strings.Replace(t[:i], ".", "", 1)
+	d = strings.TrimRight(d, "0")
+	if d == "" {
+		d = "0"
+	}
+	return d, e + 1
+}
+
+// canonFloat: one spelling per float64 (all NaNs alike), for comparing values
+func canonFloat(f float64) string {
+	if math.IsNaN(f) {
+		return "NaN"
+	}
+	return strconv.FormatFloat(f, 'g', -1, 64)
+}
+
+var floatLexRe = regexp.MustCompile(`^(NAN|INF|-INF|[+-]?([0-9]+(\.[0-9]*)?|\.[0-9]+)([eE][+-]?[0-9]+)?)$`)
+
+// refParseFloat: the value of a float lexeme of the serialize format (php.net: var_unserializer.re)
+func refParseFloat(t string) (float64, bool) {
+	if !floatLexRe.MatchString(t) {
+		return 0, false
+	}
+	switch t {
+	case "NAN":
+		return math.NaN(), true
+	case "INF":
+		return math.Inf(1), true
+	case "-INF":
+		return math.Inf(-1), true
+	}
+	f, _ := strconv.ParseFloat(t, 64) // out of range: ±Inf, as strtod
+	return f, true
+}
+
+var modelFloatRe = regexp.MustCompile(`D[0-9a-f]*`)
+
+// canonModelFloats rewrites every float lexeme `D<hex text>` of a model answer into the
+// canonical spelling of the float64 it denotes, so that it compares with fromData output.
+func canonModelFloats(s string) string {
+	if !strings.Contains(s, "D") {
+		return s
+	}
+	return modelFloatRe.ReplaceAllStringFunc(s, func(m string) string {
+		b, err := unhex(m[1:])
+		if err != nil {
+			return m
+		}
+		f, ok := refParseFloat(string(b))
+		if !ok {
+			return m
+		}
+		return "D" + hexs(canonFloat(f))
+	})
 }
 
 func (v pv) String() string {
 	switch v.K {
-	case 'N', 'T', 'F', 'D':
+	case 'N', 'T', 'F':
 		return string(v.K)
+	case 'D': // canonical spelling (value comparison); the model syntax is modelString()
+		return "D" + hexs(canonFloat(v.F))
 	case 'I':
 		return "I" + strconv.FormatInt(v.I, 10)
 	case 'S':
@@ -35,6 +160,12 @@ func (v pv) String() string {
 			p[i] = x.String()
 		}
 		return "A[" + strings.Join(p, ",") + "]"
+	case 'K':
+		p := make([]string, len(v.Items))
+		for i, x := range v.Items {
+			p[i] = hexs(v.Keys[i]) + ":" + x.String()
+		}
+		return "K[" + strings.Join(p, ",") + "]"
 	case 'O':
 		p := make([]string, len(v.Items))
 		for i, x := range v.Items {
@@ -45,13 +176,45 @@ func (v pv) String() string {
 	return "?"
 }
 
+// modelString: the value in the syntax of the model driver (a float is its lexeme)
+func (v pv) modelString() string {
+	switch v.K {
+	case 'D':
+		return "D" + hexs(refFloatText(v.F))
+	case 'A', 'K', 'O':
+		p := make([]string, len(v.Items))
+		for i, x := range v.Items {
+			if v.K != 'A' {
+				p[i] = hexs(v.Keys[i]) + ":"
+			}
+			p[i] += x.modelString()
+		}
+		if v.K == 'O' {
+			return "O{" + strings.Join(p, ",") + "}"
+		}
+		return string(v.K) + "[" + strings.Join(p, ",") + "]"
+	}
+	return v.String()
+}
+
 func readPV(s string) (pv, string, error) {
 	if s == "" {
 		return pv{}, "", fmt.Errorf("empty value")
 	}
 	switch s[0] {
-	case 'N', 'T', 'F', 'D':
+	case 'N', 'T', 'F':
 		return pv{K: s[0]}, s[1:], nil
+	case 'D':
+		j := 1
+		for j < len(s) && strings.IndexByte(hexdigits, s[j]) >= 0 {
+			j++
+		}
+		b, err := unhex(s[1:j])
+		if err != nil {
+			return pv{}, "", err
+		}
+		f, err := strconv.ParseFloat(string(b), 64)
+		return pv{K: 'D', F: f}, s[j:], err
 	case 'I':
 		j := 1
 		for j < len(s) && (s[j] == '-' || s[j] >= '0' && s[j] <= '9') {
@@ -66,7 +229,7 @@ func readPV(s string) (pv, string, error) {
 		}
 		b, err := unhex(s[1:j])
 		return pv{K: 'S', S: string(b)}, s[j:], err
-	case 'A', 'O':
+	case 'A', 'K', 'O':
 		if len(s) < 2 {
 			return pv{}, "", fmt.Errorf("short")
 		}
@@ -87,7 +250,7 @@ func readPV(s string) (pv, string, error) {
 				r = r[1:]
 				continue
 			}
-			if s[0] == 'O' {
+			if s[0] != 'A' {
 				j := strings.IndexByte(r, ':')
 				if j < 0 {
 					return pv{}, "", fmt.Errorf("key")
@@ -130,6 +293,16 @@ func (v pv) toData() data.Value {
 			xs[i] = x.toData()
 		}
 		return data.NewArrayValue(xs)
+	case 'K':
+		a := &data.ArrayValue{}
+		for i, x := range v.Items {
+			if v.Keys[i] == "" {
+				a.List = append(a.List, data.NewZVal(x.toData()))
+			} else {
+				a.List = append(a.List, data.NewNamedZVal(v.Keys[i], x.toData()))
+			}
+		}
+		return a
 	case 'O':
 		o := data.NewObjectValue()
 		for i, x := range v.Items {
@@ -138,6 +311,43 @@ func (v pv) toData() data.Value {
 		return o
 	}
 	return data.NewNullValue()
+}
+
+// slotKey: the key of slot i of a K value (its name, or its position)
+func (v pv) slotKey(i int) string {
+	if v.Keys[i] != "" {
+		return v.Keys[i]
+	}
+	return strconv.Itoa(i)
+}
+
+// isList: keys are exactly 0..n-1 in order
+func (v pv) isList() bool {
+	if v.K == 'A' {
+		return true
+	}
+	if v.K != 'K' {
+		return false
+	}
+	for i := range v.Items {
+		if v.slotKey(i) != strconv.Itoa(i) {
+			return false
+		}
+	}
+	return true
+}
+
+// canonical: no K inside (the representations unserialize itself returns)
+func (v pv) canonical() bool {
+	if v.K == 'K' {
+		return false
+	}
+	for _, x := range v.Items {
+		if !x.canonical() {
+			return false
+		}
+	}
+	return true
 }
 
 func fromData(v data.Value) pv {
@@ -211,6 +421,12 @@ func (v pv) norm() string {
 			p[i] = fmt.Sprintf("i%d=>%s", i, x.norm())
 		}
 		return "[" + strings.Join(p, ",") + "]"
+	case 'K':
+		p := make([]string, len(v.Items))
+		for i, x := range v.Items {
+			p[i] = phpKey(v.slotKey(i)) + "=>" + x.norm()
+		}
+		return "[" + strings.Join(p, ",") + "]"
 	case 'O':
 		p := make([]string, len(v.Items))
 		for i, x := range v.Items {
@@ -224,7 +440,7 @@ func (v pv) norm() string {
 // ---------------------------------------------------------------- reference reader of the PHP serialize format
 
 // refUnserialize: strict reader of the format (php.net "serialize"): N; b:0|1; i:[+-]?digits;
-// s:<len>:"<len bytes>"; a:<n>:{ (int|string key, value) × n }. Returns the normal form.
+// d:<float lexeme>; s:<len>:"<len bytes>"; a:<n>:{ (int|string key, value) × n }. Returns the normal form.
 func refUnserialize(s string) (string, bool) {
 	out, rest, ok := refValue(s, 0)
 	if !ok || rest != "" {
@@ -267,6 +483,16 @@ func refValue(s string, depth int) (string, string, bool) {
 			return "", "", false
 		}
 		return "I" + strconv.FormatInt(n, 10), r2[1:], true
+	case strings.HasPrefix(s, "d:"):
+		j := strings.IndexByte(s, ';')
+		if j < 0 {
+			return "", "", false
+		}
+		f, ok := refParseFloat(s[2:j])
+		if !ok {
+			return "", "", false
+		}
+		return "D" + hexs(canonFloat(f)), s[j+1:], true
 	case strings.HasPrefix(s, "s:"):
 		ds, r := refDigits(s[2:])
 		n, err := strconv.Atoi(ds)
